@@ -106,6 +106,13 @@ pub enum WMode {
 }
 impl WMode {
     pub fn to_write_mode(&self) -> WriteMode {
+        // parameters that equal the documented defaults are said with the parameterless variants
+        match *self {
+            WMode::BufDont(8192) => return WriteMode::BufferDontFlush,
+            WMode::BufFlush(8192, 1000) => return WriteMode::BufferAndFlush,
+            WMode::Async { pool: 50, msg: 200, flush_ms: 1000 } => return WriteMode::Async,
+            _ => {}
+        }
         match *self {
             WMode::Direct => WriteMode::Direct,
             WMode::SupportCapture => WriteMode::SupportCapture,
@@ -329,9 +336,34 @@ impl FlwCfg {
     }
 
     pub fn flw_builder(&self) -> FileLogWriterBuilder {
+        self.flw_builder_with_mode(self.wmode.to_write_mode())
+    }
+
+    /// `reset_flw` demands the write mode the embedded file writer has; `Logger::write_mode`
+    /// hands the builder the mode without its flush interval (the parameterless variants stay
+    /// parameterless: BufferAndFlush -> BufferDontFlush)
+    pub fn write_mode_as_stored_by_logger(&self) -> WriteMode {
+        match self.wmode.to_write_mode() {
+            WriteMode::BufferAndFlush => WriteMode::BufferDontFlush,
+            WriteMode::BufferAndFlushWith(cap, _) => WriteMode::BufferDontFlushWith(cap),
+            WriteMode::Async => WriteMode::AsyncWith {
+                pool_capa: 50,
+                message_capa: 200,
+                flush_interval: Duration::from_millis(0),
+            },
+            WriteMode::AsyncWith { pool_capa, message_capa, .. } => WriteMode::AsyncWith {
+                pool_capa,
+                message_capa,
+                flush_interval: Duration::from_millis(0),
+            },
+            m => m,
+        }
+    }
+
+    pub fn flw_builder_with_mode(&self, mode: WriteMode) -> FileLogWriterBuilder {
         let mut b = FileLogWriter::builder(self.file_spec_for_build())
             .format(self.fmt.func())
-            .write_mode(self.wmode.to_write_mode())
+            .write_mode(mode)
             .max_level(self.max_level)
             .cleanup_in_background_thread(self.clean_bg)
             .o_append(self.append);
@@ -548,18 +580,7 @@ impl Driver {
 
     pub fn reset(&self, cfg: &FlwCfg) -> Result<(), String> {
         let b = if cfg.l2 {
-            // Logger::write_mode() strips the flush interval before handing it to the builder
-            let mut c = cfg.clone();
-            c.wmode = match cfg.wmode {
-                WMode::BufFlush(cap, _) => WMode::BufDont(cap),
-                WMode::Async { pool, msg, .. } => WMode::Async {
-                    pool,
-                    msg,
-                    flush_ms: 0,
-                },
-                m => m,
-            };
-            c.flw_builder()
+            cfg.flw_builder_with_mode(cfg.write_mode_as_stored_by_logger())
         } else {
             cfg.flw_builder()
         };
